@@ -6,7 +6,6 @@ CONSTANTS
   TagVals = {0, 1}
   MaxInst = 1
   TagDefault = "base"
-PROPERTY C20_Isolation
-PROPERTY C20_DefaultTag
 PROPERTY C20_DefaultOwn
-PROPERTY C20_InstanceSep
+\* (only the property this control must refute is listed: with several violated properties TLC's workers
+\*  would race for which one is reported first; the full list is checked on the right algorithm by the main cfg)
